@@ -291,6 +291,10 @@ FAMILY.update(IMPLICIT)
 FOCUS_GROUPS = [(list(DEEP), True), (list(FIELDS), False),
                 (list(ALD), True), (list(REBASE), True),
                 (list(IMPLICIT), True)]
+# groups whose every 3-chain is walked by C10 (state reached by migration
+# matters); the alias-default group is represented by its base <-> variant
+# chains only (one known root cause, see KNOWN_FINDINGS.json)
+CHAIN3_GROUPS = [list(REBASE), list(IMPLICIT)]
 
 # members whose second module shadows std names used (unqualified in the
 # source) by the first one: the described text must stay self-contained
